@@ -4,6 +4,7 @@ package main
 // The limits are read from the replies, not hard-coded.
 
 import (
+	"strings"
 	"fmt"
 )
 
@@ -167,6 +168,28 @@ func runLimits(seed uint64, cas int, tier string) *LimRes {
 	s.srv.WaitIdle()
 	s.fullCheck("dump", "after the write-size cases")
 
+	// ---- names of multi-byte characters: the limit counts bytes -----------------
+	if mb := s.exec(&Op{K: OpMkdir, H: srv.Root, Name: "multibyte"}); mb.Stat == stOK {
+		for _, dl := range []int{-2, -1, 0, 1, 2, 8} {
+			L := lim.NameMax + dl
+			name := strings.Repeat("\u00e9", L/2) // 2 bytes each
+			if L%2 == 1 {
+				name += "x"
+			}
+			for _, k := range []OpKind{OpCreate, OpSymlink, OpMkdir} {
+				r := s.exec(&Op{K: k, H: mb.FH, Name: name + string(rune('a'+int(k)%20)), Target: "t"})
+				_ = r
+			}
+			r := s.exec(&Op{K: OpCreate, H: mb.FH, Name: name})
+			note("name_max(multibyte)", int64(dl), "CREATE", r.Stat == stOK)
+			if (len(name) <= lim.NameMax) != (r.Stat == stOK) {
+				viol("CREATE of a name of %d bytes (%d characters; name_max %d): status %d", len(name), len([]rune(name)), lim.NameMax, r.Stat)
+			}
+		}
+		s.restart()
+		s.exec(&Op{K: OpReaddirplus, H: mb.FH, Count: 1 << 20, Dircount: 1 << 20})
+		s.exec(&Op{K: OpCreate, H: mb.FH, Name: "after"})
+	}
 	// ---- CREATE with an initial size -----------------------------------------
 	for i, sz := range []uint64{100, lim.MaxFileSize - 1, lim.MaxFileSize, lim.MaxFileSize + 1, lim.MaxFileSize + 4096, 1 << 40, 1 << 63, ^uint64(0)} {
 		name := fmt.Sprintf("crsz%d", i)
